@@ -21,19 +21,35 @@ func fail(c *mc.Ctx, oracle, key, format string, a ...any) {
 	c.Fail(oracle, "C08/"+key, format, a...)
 }
 
-func pub(b []byte) *ntor.PublicKey {
-	p, err := ntor.NewPublicKey(b)
-	if err != nil {
-		panic(err)
+// recycled: the constructors are given a scratch buffer that the caller
+// overwrites as soon as they return (a receive buffer, a decoded bridge line).
+func recycled(b []byte, use func(scratch []byte)) {
+	q := make([]byte, len(b), len(b)+16)
+	copy(q, b)
+	use(q)
+	q = q[:cap(q)]
+	for i := range q {
+		q[i] = 0xEE
 	}
+}
+
+func pub(b []byte) (p *ntor.PublicKey) {
+	recycled(b, func(q []byte) {
+		var err error
+		if p, err = ntor.NewPublicKey(q); err != nil {
+			panic(err)
+		}
+	})
 	return p
 }
 
-func nid(b []byte) *ntor.NodeID {
-	n, err := ntor.NewNodeID(b)
-	if err != nil {
-		panic(err)
-	}
+func nid(b []byte) (n *ntor.NodeID) {
+	recycled(b, func(q []byte) {
+		var err error
+		if n, err = ntor.NewNodeID(q); err != nil {
+			panic(err)
+		}
+	})
 	return n
 }
 
